@@ -39,6 +39,23 @@ func endpoint.MarkAsHealthy
   modifies c.dead, c.deadSince, c.failures
   ensures !c.dead
 
+func newEndpoint
+  props C20
+  ensures result != nil && fresh(result) && result.url == url && result.nodeType == nodeType && !result.dead
+
+// a topology update installs the announced leader as a NEW endpoint of type primary, alive:
+// nothing a former role of that node left behind (type secondary, a dead mark) survives
+func topology.Update
+  props C20
+  requires TopoInv(t)
+  modifies t.primary, t.endpoints, t.cIndex
+  ensures C20/inv-established: TopoInv(t)
+  ensures C20/leader-is-a-fresh-primary: primaryNode != "" ==> t.primary != nil && fresh(t.primary) && t.primary.nodeType == primary && !t.primary.dead && t.primary.url == primaryNode
+  loop 1 modifies nothing
+  loop 1 invariant forall k int :: 0 <= k && k < len(newEndpoints) ==> newEndpoints[k] != nil
+  loop 2 modifies nothing
+  loop 2 invariant forall k int :: 0 <= k && k < len(newEndpoints) ==> newEndpoints[k] != nil
+
 func topology.Primary
   props C20
   ensures result_0 == t.primary
